@@ -370,19 +370,49 @@ def _check_brackets(prog: Program, res: Result):
                 and not isinstance(s_.value, ast.Call):
             eng._s_Assign(s_, st)
     K = Rat.atom("T.pipe.k")
-    lo, hi, x0 = (eng.eval(b[k_], st) if k_ in b else None for k_ in ("lower", "upper", "x"))
 
     def ratio(v):
         r = (v / K) if isinstance(v, Rat) else None
         return float(r.const_value()) if r is not None and r.is_const() else None
 
-    rl, rh = ratio(lo), ratio(hi)
-    ok = rl is not None and rh is not None and 0 < rl <= 0.01 + 1e-12 and rh >= 10 - 1e-9 and isinstance(x0, Rat) and x0.equals(K)
-    res.ob("R15.5", f"pipe-conductivity search: bracket [{rl} k_p', {rh} k_p'] contains [k_p'/100, 10 k_p'], started at k_p'", ok, prog.loc(eq, calls[0]))
-    if not ok:
-        res.violation("R15.5", f"bracket-kp|{rl}|{rh}", prog.loc(eq, calls[0]), eq.qualname,
-                      f"the pipe-conductivity root search runs on [{rl} k_p', {rh} k_p']: for laminar flow the root lies at 0.03-0.05 k_p', it is then not bracketed, "
-                      "solve_root falls back to a bound and the equivalent tube keeps a conductivity that does not reproduce R_conv + R_pipe")
+    # the bracket on EVERY path that reaches the search (a bound that is re-assigned under a condition - a warm start, a
+    # clamp - counts with that value)
+    class HB(Hooks):
+        def on_call(self, node, fname, args, kwargs, st_, eng_):
+            if fname == "SingleUTube":
+                return Rat.atom("T")
+            if fname == "solve_root":
+                bb = bind_args(sr, node)
+                st_.emit("SOLVE", tuple(eng_.eval(bb[k_], st_) if k_ in bb else None for k_ in ("lower", "upper", "x")), node)
+                return Rat.atom("ROOT")
+            return None
+
+    e3 = Engine(prog, eq, HB())
+    s3 = State()
+    for p_ in eq.params():
+        s3.env[p_] = Rat.atom(p_)
+    n_paths = 0
+    seen_b = set()
+    for f_ in e3.run_function(s3):
+        for ev in f_.events:
+            if ev.kind != "SOLVE":
+                continue
+            n_paths += 1
+            lo, hi, x0 = ev.data
+            rl, rh = ratio(lo), ratio(hi)
+            ok = rl is not None and rh is not None and 0 < rl <= 0.01 + 1e-12 and rh >= 10 - 1e-9 and isinstance(x0, Rat) and x0.equals(K)
+            shown = (f"[{rl} k_p', {rh} k_p']" if rl is not None and rh is not None else f"[{lo.key()[:50] if isinstance(lo, Rat) else lo}, {hi.key()[:50] if isinstance(hi, Rat) else hi}]")
+            if (shown, ok) in seen_b:
+                continue
+            seen_b.add((shown, ok))
+            trail = " & ".join(k for k, tr, ln in f_.trail)[:80]
+            res.ob("R15.5", f"pipe-conductivity search: bracket {shown} contains [k_p'/100, 10 k_p'], started at k_p'" + (f" (path [{trail}])" if trail else ""), ok, prog.loc(eq, ev.node))
+            if not ok:
+                res.violation("R15.5", f"bracket-kp|{shown[:60]}", prog.loc(eq, ev.node), eq.qualname,
+                              f"the pipe-conductivity root search runs on {shown}" + (f" on the path [{trail}]" if trail else "") + ": for laminar flow the root lies at 0.03-0.05 k_p', it is then not "
+                              "bracketed, solve_root falls back to a bound and the equivalent tube keeps a conductivity that does not reproduce R_conv + R_pipe")
+    if n_paths == 0:
+        raise AnalysisError(f"{eq.qualname}: no path reaches the conductivity search")
     mq = f"{BH}.GHEDesignerBoreholeWithMultiplePipes.match_effective_borehole_resistance"
     mfi = prog.func(mq)
     calls = [c for c in ast.walk(mfi.node) if isinstance(c, ast.Call) and attr_chain(c.func) == "solve_root"]
@@ -542,6 +572,9 @@ def _check_recompute(prog: Program, res: Result):
 
 
 VARIANTS = [
+    Variant("pipe-conductivity search warm-started within a decade of the previous conversion's root (seeded C15_g)", "break",
+            [(BH, "class GHEDesignerBoreholeWithMultiplePipes(GHEDesignerBoreholeBase):\n", "class GHEDesignerBoreholeWithMultiplePipes(GHEDesignerBoreholeBase):\n    _k_p_equivalent = None\n\n"),
+             (BH, "        k_p_upper = eq_single_u_tube.pipe.k * 10.0\n", "        k_p_upper = eq_single_u_tube.pipe.k * 10.0\n        if self._k_p_equivalent is not None:\n            k_p_lower = max(k_p_lower, self._k_p_equivalent / 10.0)\n            k_p_upper = min(k_p_upper, self._k_p_equivalent * 10.0)\n")], "R15.5"),
     Variant("solve_root's default absolute tolerance loosened to 1e-3 (seeded C15_e)", "break",
             [("ghedesigner.utilities", "def solve_root(x, objective_function, lower=None, upper=None, abs_tol=1.0e-6,", "def solve_root(x, objective_function, lower=None, upper=None, abs_tol=1.0e-3,")], "R15.5"),
     Variant("solve_root's default absolute tolerance tightened to 1e-8", "benign",
